@@ -57,7 +57,7 @@ def correspondence13(ck, binpath, n):
     if rc != 0:
         ck.tie_broken("harness c13 corr failed", err[-2000:])
         return
-    cases = [json.loads(l) for l in out.splitlines() if l.strip()]
+    cases = [json.loads(l) for l in jlines(out) if l.strip()]
     terms = []
     kept = []
     for c in cases:
@@ -93,7 +93,7 @@ def search13(ck, binpath, n, extra_corpus=None):
     if rc != 0:
         ck.tie_broken("harness c13 search failed", err[-2000:])
         return
-    for l in out.splitlines():
+    for l in jlines(out):
         if not l.strip():
             continue
         v = json.loads(l)
@@ -115,7 +115,7 @@ def replay13(ck, binpath, path):
         if "prog" not in case:
             continue
         rc, out, err = ck.run_bin(binpath, ["one", "--case-json", json.dumps({"prog": case["prog"]})])
-        for l in out.splitlines()[1:]:
+        for l in jlines(out)[1:]:
             vv = json.loads(l)
             if "signature" in vv:
                 ck.violation(vv["signature"], "%s in `%s`" % (vv["what"], vv["text"].strip()), {"text": vv["text"], "prog": vv["prog"], "what": vv["what"]})
@@ -152,7 +152,7 @@ def correspondence14(ck, binpath, n):
     if rc != 0:
         ck.tie_broken("harness c14 corr failed", err[-2000:])
         return
-    cases = [json.loads(l) for l in out.splitlines() if l.strip()]
+    cases = [json.loads(l) for l in jlines(out) if l.strip()]
     terms = []
     kept = []
     for c in cases:
@@ -187,7 +187,7 @@ def search14(ck, binpath, n):
     if rc != 0:
         ck.tie_broken("harness c14 search failed", err[-2000:])
         return
-    for l in out.splitlines():
+    for l in jlines(out):
         if not l.strip():
             continue
         v = json.loads(l)
@@ -209,7 +209,7 @@ def replay14(ck, binpath, path):
         if not case.get("prog"):
             continue
         rc, out, err = ck.run_bin(binpath, ["one", "--case-json", json.dumps({"prog": case["prog"]})])
-        for l in out.splitlines()[1:]:
+        for l in jlines(out)[1:]:
             vv = json.loads(l)
             if "signature" in vv:
                 ck.violation(vv["signature"], vv["what"], {"text": vv["text"], "prog": vv["prog"], "what": vv["what"]})
